@@ -85,6 +85,7 @@ func c17Run(b *core.B) {
 		prog := genProgram(r, 2, func(g *pGen) {
 			g.noFail = true
 			g.noAssign = true
+			g.noReturn = true
 			g.ints = append(g.ints, "iv")
 			g.strs = append(g.strs, "sv")
 			g.hashBias = true
@@ -105,7 +106,13 @@ func c17Run(b *core.B) {
 		partials := map[string]string{}
 		// nested partial inside the body (depth <= 3 through repeated generation)
 		if r.Chance(1, 3) {
-			sub := genProgram(r, 1, func(g *pGen) { g.noFail = true; g.noAssign = true; g.ints = append(g.ints, "iv"); g.hashBias = true })
+			sub := genProgram(r, 1, func(g *pGen) {
+				g.noFail = true
+				g.noAssign = true
+				g.noReturn = true
+				g.ints = append(g.ints, "iv")
+				g.hashBias = true
+			})
 			partials["sub.html"] = sub.canonical()
 			body += "<%= partial(\"sub.html\", {iv: 7}) %>"
 			if r.Chance(1, 2) {
